@@ -29,6 +29,14 @@ func (data UnbondDataV3) TxType() TxType {
 }
 
 func (data UnbondDataV3) basicCheck(tx *Transaction, context *state.CheckState) *Response {
+	if data.Value == nil || data.Value.Sign() != 1 {
+		return &Response{
+			Code: code.DecodeError,
+			Log:  "Incorrect tx data",
+			Info: EncodeError(code.NewDecodeError()),
+		}
+	}
+
 	if !context.Coins().Exists(data.Coin) {
 		return &Response{
 			Code: code.CoinNotExists,
